@@ -8,8 +8,8 @@ partial (model: `fwdG` of `symFwd`, both proved)."""
 from __future__ import annotations
 
 from .. import wire, gen, common
-from ..core import call, sm, X, Report, write_evidence
-from ..engine import NumCase, ExprCase, judge_numeric, judge_expr
+from ..core import call, sm, X, Report, write_evidence, Batch
+from ..engine import NumCase, ExprCase, judge_numeric, judge_expr, answers_agree, out_of_range, _num_answer
 
 PID = "C05"
 
@@ -40,6 +40,10 @@ def gen_cases(rng, tier: str) -> list[dict]:
         if c["route"] == "D":
             c["x"] = vs[0] if vs else "whatever"
         cases.append(c)
+        if origin.startswith(("pair", "ppair", "rule")) and vs:
+            # both symbolic routes for the directed patterns, in a variable that occurs
+            other = dict(c, x=c["x"] if c["x"] in vs else vs[0], route="FE" if c["route"] != "FE" else "P")
+            cases.append(other)
     return cases
 
 
@@ -72,7 +76,7 @@ def wellformed(s) -> str | None:
 
 
 def check_cases(cases: list[dict], rep: Report, known: dict) -> None:
-    ecs, ncs = [], []
+    ecs, ncs, sem = [], [], []
     for c in cases:
         e = wire.build_raw(c["e"])
         x, route = c["x"], c["route"]
@@ -94,20 +98,17 @@ def check_cases(cases: list[dict], rep: Report, known: dict) -> None:
         if w:
             rep.violation(f"as_expression() is not a well-formed expression: {w}", info)
         vs = common.names_of(e)
+        stxt = wire.expr(se)
         for j, ptxt in enumerate(c["points"]):
             p = wire.build_point(ptxt)
             val = call(se.at, p)
-            n1 = NumCase((c["e"], x, route, ptxt, 1), f"fwd {x} {c['e']} {ptxt}", val,
-                         dict(c, p=ptxt, order=1, impl=repr(val), sexpr=repr(se)[:600]))
-            n1.info["_e"] = e
-            ncs.append(n1)
+            sem.append((dict(c, p=ptxt, order=1, sexpr=repr(se)[:600]), f"fwd {x} {c['e']} {ptxt}", f"eval {stxt} {ptxt}"))
+            ncs.append(NumCase(None, f"eval {stxt} {ptxt}", val, dict(c, p=ptxt, order=1, impl=repr(val))))
             if j == 0 and vs:
                 y = vs[(len(ptxt)) % len(vs)]
                 val2 = call(lambda: sm.Partial(se, y).at(p))
-                n2 = NumCase((c["e"], x, route, ptxt, 2), f"fwd2 {x} {y} {c['e']} {ptxt}", val2,
-                             dict(c, p=ptxt, order=2, y=y, impl=repr(val2), sexpr=repr(se)[:600]))
-                n2.info["_e"] = e
-                ncs.append(n2)
+                sem.append((dict(c, p=ptxt, order=2, y=y, sexpr=repr(se)[:600]), f"fwd2 {x} {y} {c['e']} {ptxt}", f"fwd {y} {stxt} {ptxt}"))
+                ncs.append(NumCase(None, f"fwd {y} {stxt} {ptxt}", val2, dict(c, p=ptxt, order=2, y=y, impl=repr(val2))))
     judge_expr(ecs, rep)
     judge_numeric(ncs, rep)
     for ec in ecs:
@@ -128,44 +129,67 @@ def check_cases(cases: list[dict], rep: Report, known: dict) -> None:
         else:
             rep.sample({"e": info["e"], "x": info["x"], "route": info["route"], "as_expression": info["impl"][:300]})
     for nc in ncs:
-        e = nc.info.pop("_e")
-        info = nc.info
-        rep.evaluations += 1
+        # the implementation's evaluation / differentiation of its own output against the model's
         if nc.verdict.startswith("skip"):
             rep.skip(nc.verdict[5:])
-            continue
-        if not info["model_F0"].startswith("ok"):
+        elif nc.verdict == "mismatch":
+            rep.corr_break(f"evaluating the symbolic derivative differs from the model's evaluation of the same tree: {nc.detail}", nc.info)
+    # the semantic oracle: the implementation's output, read by the (proved) model, against the truth
+    sb = Batch()
+    idx = [(sb.ask("Q " + t), sb.ask("F0 " + t), sb.ask("Q " + o), sb.ask("F0 " + o)) for _, t, o in sem]
+    sb.run()
+    for (info, t, o), (iq, jf, oq, of) in zip(sem, idx):
+        rep.evaluations += 1
+        a_in, a_out = _num_answer(sb[jf]), _num_answer(sb[of])
+        q_in, q_out = _num_answer(sb[iq]), _num_answer(sb[oq])
+        if a_in[0] != "ok":
             rep.count("points", "outside-domain")
             continue          # the statement is about points where the original is defined
-        rep.count("points", f"in-domain-order{info['order']}")
-        if nc.verdict == "match":
+        if out_of_range(a_in[1]) or (a_out[0] == "ok" and out_of_range(a_out[1])):
+            rep.skip("range")
             continue
-        # the symbolic derivative is wrong or undefined at a point of the original's domain
+        rep.count("points", f"in-domain-order{info['order']}")
+        info = dict(info, truth=sb[jf], output=sb[of])
+        ok = a_out[0] == "ok" and answers_agree(a_in, a_out)
+        if ok and q_in[0] == "ok" and q_out[0] == "ok" and q_in[1].rep and q_out[1].rep and q_in[1].q != q_out[1].q:
+            ok = False
+            info["exact"] = f"{q_in[1].q} vs {q_out[1].q}"
+        if ok:
+            continue
+        if a_out[0] == "err" and a_out[1] == "unsupported":
+            rep.skip("model-unsupported")
+            continue
+        vb = Batch()
+        ii = [(vb.ask(f"F{j} " + t), vb.ask(f"F{j} " + o)) for j in (1, 2, 3)]
+        vb.run()
+        if "exact" not in info and any(not answers_agree(_num_answer(vb[x_]), a_in) or not answers_agree(_num_answer(vb[y_]), a_out) for x_, y_ in ii):
+            rep.skip("rounding-ambiguous")
+            continue
         if attributable_to_k1(info):
             rep.known("K1", "even root of even power rewritten unsoundly inside as_expression()",
                       {"e": info["e"], "x": info["x"], "p": info["p"], "route": info["route"]})
             continue
         what = "value of the symbolic derivative" if info["order"] == 1 else "second-order partial obtained from the symbolic derivative"
-        rep.violation(f"{what} is wrong or undefined at a point of the original's domain: {nc.detail}", info)
+        rep.violation(f"{what} is wrong or undefined at a point of the original's domain: truth {sb[jf]}, symbolic {sb[of]}", info)
 
 
 def attributable_to_k1(info: dict) -> bool:
     """re-run this one query with exactly the K1 rule instance switched off"""
     e = wire.build_raw(info["e"])
-    p = wire.build_point(info["p"])
     with common.k1_disabled():
         s = impl_as_expression(e, info["x"], info["route"])
-        if s[0] != "ok":
-            return False
-        if info["order"] == 1:
-            val = call(s[1].at, p)
-            suffix = f"fwd {info['x']} {info['e']} {info['p']}"
-        else:
-            val = call(lambda: sm.Partial(s[1], info["y"]).at(p))
-            suffix = f"fwd2 {info['x']} {info['y']} {info['e']} {info['p']}"
-    nc = NumCase(None, suffix, val, {})
-    judge_numeric([nc], Report("C05", "k1", 0))
-    return nc.verdict == "match"
+    if s[0] != "ok":
+        return False
+    stxt = wire.expr(s[1])
+    if info["order"] == 1:
+        t, o = f"fwd {info['x']} {info['e']} {info['p']}", f"eval {stxt} {info['p']}"
+    else:
+        t, o = f"fwd2 {info['x']} {info['y']} {info['e']} {info['p']}", f"fwd {info['y']} {stxt} {info['p']}"
+    b = Batch()
+    i, j = b.ask("F0 " + t), b.ask("F0 " + o)
+    b.run()
+    a_in, a_out = _num_answer(b[i]), _num_answer(b[j])
+    return a_out[0] == "ok" and answers_agree(a_in, a_out)
 
 
 def run(rep: Report, rng, tier: str, known: dict, search: bool = False) -> None:
